@@ -68,8 +68,20 @@ func reduce(h uint64, seed uintptr) uintptr {
 	} else if hashMode == HashSplit && mix64(h^0x5117)&1 == 0 {
 		h = h % collideN
 	}
-	return uintptr(mix64(h ^ mix64(uint64(seed)+0x1234567)))
+	r := mix64(h ^ mix64(uint64(seed)+0x1234567))
+	if zeroTop && mix64(h^0x70B)&3 == 0 {
+		// extreme values: the top 24 bits are zero for a quarter of the keys
+		// (code that derives marker bits from the top of the hash must not
+		// treat "all zero" as "empty")
+		r &= 1<<40 - 1
+	}
+	return uintptr(r)
 }
+
+var zeroTop bool
+
+// SetHashZeroTop switches the extreme-value variant of the deterministic modes.
+func SetHashZeroTop(b bool) { zeroTop = b }
 
 // Memhash replaces runtime.memhash.
 //
